@@ -189,6 +189,9 @@ func (c *Collection) CreateColumn(columnName string, column Column) error {
 	if max, ok := c.fill.Max(); ok && max > capacity {
 		capacity = max // rows may sit at offsets beyond the count (sparse fill)
 	}
+	if chunks := len(c.commits); chunks > 0 && commit.Chunk(chunks-1).Max() > capacity {
+		capacity = commit.Chunk(chunks - 1).Max() // every chunk that has been committed to, even if it is empty now
+	}
 	c.lock.RUnlock()
 
 	column.Grow(capacity)
